@@ -441,23 +441,24 @@ func (c *sentinelClient) _switchTarget(addr string, isMaster bool) (err error) {
 	}
 
 	var (
-		target conn
-		opt    *ClientOption
+		target    conn
+		installed conn // the connection in service for this role, when it goes to the same address
+		opt       *ClientOption
 	)
 
 	if isMaster {
 		opt = c.mOpt
 		if mAddr := c.mAddr.Load(); mAddr != nil && mAddr.(string) == addr {
-			target = c.mConn.Load().(conn)
-			if target.Error() != nil {
+			installed = c.mConn.Load().(conn)
+			if target = installed; target.Error() != nil {
 				target = nil
 			}
 		}
 	} else {
 		opt = c.rOpt
 		if rAddr := c.rAddr.Load(); rAddr != nil && rAddr.(string) == addr {
-			target = c.rConn.Load().(conn)
-			if target.Error() != nil {
+			installed = c.rConn.Load().(conn)
+			if target = installed; target.Error() != nil {
 				target = nil
 			}
 		}
@@ -479,6 +480,9 @@ func (c *sentinelClient) _switchTarget(addr string, isMaster bool) (err error) {
 	if isMaster {
 		if resp[0].string() != "master" {
 			target.Close()
+			if installed != nil && installed != target {
+				installed.Close() // it only looked broken (its other wires still serve): the node has the wrong role
+			}
 			return errNotMaster
 		}
 
@@ -492,6 +496,9 @@ func (c *sentinelClient) _switchTarget(addr string, isMaster bool) (err error) {
 	} else {
 		if resp[0].string() != "slave" {
 			target.Close()
+			if installed != nil && installed != target {
+				installed.Close() // see above
+			}
 			return errNotSlave
 		}
 
